@@ -4,7 +4,9 @@ use super::{
 };
 use crate::ScopeRef;
 use crate::css::{self, CssString, ValueToMapError};
-use crate::input::{Context, Loader, Parsed, SourceKind, SourcePos};
+use crate::input::{
+    Context, Loader, Parsed, SourceFile, SourceKind, SourcePos,
+};
 use crate::ordermap::OrderMap;
 
 /// A declared mixin
@@ -41,6 +43,7 @@ impl MixinDecl {
                         call_args.evaluate(scope)?.args,
                     )?,
                     body: Parsed::Scss(decl.body.body),
+                    loading: None,
                 })
             }
             Self::NoBody => Ok(Mixin::empty(scope)),
@@ -85,10 +88,10 @@ impl MixinDecl {
                         scope.define(key.into(), value)?;
                     }
                 }
-                file_context.unlock_loading(&source);
                 Ok(Mixin {
                     scope,
                     body: source.parse()?,
+                    loading: Some(source),
                 })
             }
         }
@@ -105,6 +108,8 @@ pub struct Mixin {
     pub scope: ScopeRef,
     /// The body of this mixin.
     pub body: Parsed,
+    /// The file that `load-css` is loading; locked until the body is done.
+    pub(crate) loading: Option<SourceFile>,
 }
 
 impl Mixin {
@@ -112,6 +117,7 @@ impl Mixin {
         Self {
             scope,
             body: Parsed::Css(vec![]),
+            loading: None,
         }
     }
     pub(crate) fn define_content(
